@@ -19,6 +19,7 @@ type dtAtom struct {
 	Expr string
 	Val  bool
 	Pos  token.Pos
+	Err  bool // the atom is "<error-typed expression> == nil"
 }
 
 type dtPath struct {
@@ -254,11 +255,21 @@ func (d *dtEnum) cond(p *dtPath, e ast.Expr, k func(p *dtPath, v bool)) {
 		d.overflow = true
 		return
 	}
+	isErr := false
+	if be, ok := ast.Unparen(e).(*ast.BinaryExpr); ok && (be.Op == token.EQL || be.Op == token.NEQ) {
+		for _, side := range [][2]ast.Expr{{be.X, be.Y}, {be.Y, be.X}} {
+			if isNilIdent(d.info, side[1]) {
+				if t := d.info.TypeOf(side[0]); t != nil && types.Identical(t, types.Universe.Lookup("error").Type()) {
+					isErr = true
+				}
+			}
+		}
+	}
 	t := p.clone()
-	t.Atoms = append(t.Atoms, dtAtom{s, true, e.Pos()})
+	t.Atoms = append(t.Atoms, dtAtom{s, true, e.Pos(), isErr})
 	k(t, !neg)
 	f := p.clone()
-	f.Atoms = append(f.Atoms, dtAtom{s, false, e.Pos()})
+	f.Atoms = append(f.Atoms, dtAtom{s, false, e.Pos(), isErr})
 	k(f, neg)
 }
 
